@@ -3,6 +3,7 @@ package props
 import (
 	"crypto"
 	"fmt"
+	"reflect"
 
 	"github.com/davecgh/go-spew/spew"
 	"github.com/veraison/psatoken"
@@ -63,6 +64,33 @@ func c18Calls(x psatoken.IClaims, ev *psatoken.Evidence, pks []crypto.PublicKey)
 			c18Call{"ValidateClaims(generic)", func() string { return errText(psatoken.ValidateClaims(x)) }},
 			c18Call{"SetClaims(on another Evidence)", func() string { return errText((&psatoken.Evidence{}).SetClaims(x)) }},
 		)
+		// the component container and the components themselves, called directly
+		var cont psatoken.ISwComponents
+		if q := obs.P1Of(x); q != nil {
+			cont = q.SwComponents
+		} else if q := obs.P2Of(x); q != nil {
+			cont = q.SwComponents
+		}
+		if cont != nil && !reflect.ValueOf(cont).IsNil() {
+			l = append(l,
+				c18Call{"SwComponents.Validate", func() string { return errText(cont.Validate()) }},
+				c18Call{"SwComponents.IsEmpty", func() string { return fmt.Sprint(cont.IsEmpty()) }},
+				c18Call{"SwComponents.Values", func() string {
+					vs, e := cont.Values()
+					out := errText(e)
+					for _, sc := range vs {
+						out += obs.ObserveComp(sc) + errText(sc.Validate())
+					}
+					return out
+				}},
+			)
+			if m, ok := cont.(interface{ MarshalCBOR() ([]byte, error) }); ok {
+				l = append(l, c18Call{"SwComponents.MarshalCBOR", func() string { b, e := m.MarshalCBOR(); return fmt.Sprintf("%x %s", b, errText(e)) }})
+			}
+			if m, ok := cont.(interface{ MarshalJSON() ([]byte, error) }); ok {
+				l = append(l, c18Call{"SwComponents.MarshalJSON", func() string { b, e := m.MarshalJSON(); return fmt.Sprintf("%s %s", b, errText(e)) }})
+			}
+		}
 	}
 	if ev != nil {
 		for i, pk := range pks {
@@ -86,7 +114,7 @@ func errText(e error) string {
 }
 
 func runC18(c *mon.Ctx) {
-	c.Rule("objects: valid and rule-breaking claims-sets of both profiles and the P2 extension built by direct assignment / by setters / by decoding CBOR (incl. C04's type-breaking and open-encoding tokens that still decode) / by decoding JSON, and Evidence obtained by decoding COSE and by signing. On each object a random sequence of 1..30 read-side calls (Validate, the 10 getters, component getters, CBOR/JSON encoding validating and not, generic ValidateClaims, SetClaims of the object on ANOTHER Evidence; on Evidence: Verify with right / wrong / nil key, GetInstanceID, GetImplementationID, MarshalJSON), every call issued twice. Oracle: (1) the two results of each call are identical (encodings byte-identical); (2) a deep snapshot (go-spew dump of every exported and unexported field reachable from the object, pointer addresses and capacities masked; for Evidence including the hidden COSE message) is identical before and after the sequence; (2b) the raw CBOR / JSON encodings handed out for an object, and the Verify outcome of an Evidence, are kept and re-checked after six further objects were processed; (3) decode-from-buffer cases: after the decode the caller's buffer is overwritten with 0x00, 0xFF and random bytes - deep snapshot, every getter result and the Verify outcomes must not change. distinct_nontrivial = distinct (object kind, route, validity class, first calls) signatures")
+	c.Rule("objects: valid and rule-breaking claims-sets of both profiles and the P2 extension built by direct assignment / by setters / by decoding CBOR (incl. C04's type-breaking and open-encoding tokens that still decode) / by decoding JSON, and Evidence obtained by decoding COSE and by signing. On each object a random sequence of 1..30 read-side calls (Validate, the 10 getters, component getters, CBOR/JSON encoding validating and not, generic ValidateClaims, SetClaims of the object on ANOTHER Evidence, the component container's own Validate / Values / IsEmpty / MarshalCBOR / MarshalJSON and each component's Validate; on Evidence: Verify with right / wrong / nil key, GetInstanceID, GetImplementationID, MarshalJSON), every call issued twice. Oracle: (1) the two results of each call are identical (encodings byte-identical); (2) a deep snapshot (go-spew dump of every exported and unexported field reachable from the object, pointer addresses and capacities masked; for Evidence including the hidden COSE message) is identical before and after the sequence; (2b) the raw CBOR / JSON encodings handed out for an object, and the Verify outcome of an Evidence, are kept and re-checked after six further objects were processed; (3) decode-from-buffer cases: after the decode the caller's buffer is overwritten with 0x00, 0xFF and random bytes - deep snapshot, every getter result and the Verify outcomes must not change. distinct_nontrivial = distinct (object kind, route, validity class, first calls) signatures")
 	if err := extprof.Register(extprof.ExtP2Name); err != nil {
 		c.Violation("harness/register", err.Error(), nil)
 		return
